@@ -35,6 +35,7 @@ NONTRIVIAL_RULE = "processed an event that entered or left a final state"
 BOUNDS = {
     "done_step": "machine DM (and DM2 with prefix-named regions); every stable legal configuration; one event of the 7-letter alphabet; both engines",
     "done_run": "machine DM; event sequences of length <= N (item label) over the alphabet from start(); both engines",
+    "double_final": "machine DF (a parallel state whose region leaf and the root both handle one event, each transition entering a different top-level final state); one event / one batch / two sends; both engines: status done once, on_done hook once, output not overwritten",
     "top_final": "4 machine variants (machine-level output absent / literal / falsy literal / callable) x final-state output; sequences of <= 3 events after completion",
 }
 ASSUMPTIONS = [
@@ -71,7 +72,9 @@ def dm_config(prefixy: bool = False) -> Dict[str, Any]:
                          "states": {"c": {"on": {"F2": "g"}}, "g": {"type": "final"}}},
                     r3: {"initial": "W", "on": {"U3": "W"},
                          "states": {
-                             "W": {"initial": "x", "onDone": {"target": "f3", "actions": _tr("W.done")},
+                             # W also invokes a service WITHOUT an explicit id (its id defaults to W's own id): the
+                             # service's done.invoke.<W> must never be mistaken for W's own completion
+                             "W": {"initial": "x", "onDone": {"target": "f3", "actions": _tr("W.done")}, "invoke": {"src": "svc"},
                                    "states": {"x": {"on": {"F3": "wf"}}, "wf": {"type": "final", "output": "w-out"}}},
                              "f3": {"type": "final"}}},
                     "hs": {"type": "history"},
@@ -94,7 +97,7 @@ def _machine(name: str) -> Any:
             cfg = dm_config(True)
         else:
             cfg = top_config(int(name[3:]))
-        m = create_machine(common.mark(cfg), logic=make_logic())
+        m = create_machine(common.mark(cfg), logic=make_logic(services={"svc": lambda i, c, e: {"answer": 42}}))
         env.pin_hashes(m)
         _M[name] = m
     return m
@@ -285,6 +288,87 @@ class _DoneHook:
         return None
 
 
+def double_final(eng: int, how: int) -> bool:
+    """
+    pre: 0 <= eng <= 1
+    pre: gate('double_final', eng=eng, how=how)
+    post: _
+    """
+    from xstate_statemachine import Interpreter, SyncInterpreter, create_machine
+
+    h = pick(how, 3)
+    m = _M.get("DF")
+    if m is None:
+        env.install()
+        cfg = {
+            "id": "m", "initial": "P",
+            # the root handles FIN too: it is selected for region r2's leaf, which has no handler of its own
+            "on": {"FIN": {"target": ".end2"}, "FIN2": {"target": ".end2"}},
+            "states": {
+                "P": {"type": "parallel", "states": {
+                    "r1": {"initial": "a", "states": {"a": {"on": {"FIN": "#m.end1", "FIN1": "#m.end1"}}}},
+                    "r2": {"initial": "b", "states": {"b": {}}},
+                }},
+                "end1": {"type": "final", "output": {"winner": "end1"}},
+                "end2": {"type": "final", "output": {"winner": "end2"}},
+            },
+        }
+        m = create_machine(common.mark(cfg), logic=make_logic())
+        env.pin_hashes(m)
+        _M["DF"] = m
+    hook = _DoneHook()
+    res: Dict[str, Any] = {}
+    # how 0: ONE event selects two transitions that each enter a top-level final state
+    # how 1: a batch - the first event completes the machine, a later one would enter another final state
+    # how 2: the same as two separate sends (the second must be ignored altogether)
+    if eng == 0:
+        it = SyncInterpreter(m)
+        it.use(hook)
+        it.start()
+        if h == 0:
+            it.send("FIN")
+        elif h == 1:
+            it.send_events(["FIN1", "FIN2"])
+        else:
+            it.send("FIN1")
+            it.send("FIN2")
+        res = {"status": it.status, "output": it.output}
+        it.stop()
+    else:
+        it2 = Interpreter(m)
+        it2.use(hook)
+
+        async def go() -> None:
+            await it2.start()
+            if h == 0:
+                await it2.send("FIN")
+            else:
+                await it2.send("FIN1")
+                if h == 2:
+                    await it2._event_queue.join()
+                await it2.send("FIN2")
+            import asyncio
+
+            for _ in range(20):
+                await asyncio.sleep(0)
+            res.update({"status": it2.status, "output": it2.output})
+            await it2.stop()
+
+        common.drive(go())
+    why = None
+    if res["status"] != "done":
+        why = f"status {res['status']}"
+    elif len(hook.done) != 1:
+        why = f"on_done hook called {len(hook.done)} time(s) with {hook.done}; the machine completes exactly once"
+    elif res["output"] != hook.done[0]:
+        why = f"output {res['output']!r} differs from the output recorded at completion {hook.done[0]!r}"
+    elif h != 0 and res["output"] != {"winner": "end1"}:
+        why = f"output {res['output']!r}: the machine completed in end1"
+    if why:
+        _note(f"{'sync' if eng == 0 else 'async'} how={h}: {why}")
+    return verdict(why is None)
+
+
 def top_final(eng: int, variant: int, which: bool, k: int) -> bool:
     """
     pre: 0 <= eng <= 1
@@ -373,7 +457,7 @@ def top_final(eng: int, variant: int, which: bool, k: int) -> bool:
     return verdict(ok)
 
 
-OBLIGATIONS = {"done_step": done_step, "done_run": done_run, "top_final": top_final}
+OBLIGATIONS = {"done_step": done_step, "done_run": done_run, "top_final": top_final, "double_final": double_final}
 PROBES = {"done_step": [{"evsel": 0}, {"evsel": 2}, {"c0": 1, "c1": 1, "evsel": 2}],
           "top_final": [{"variant": 2, "which": True}, {"variant": 1, "which": True, "k": 1}]}
 
@@ -386,4 +470,5 @@ def items(tier: str, seed: int) -> List[Dict[str, Any]]:
     for n in ([2, 3] if quick else [3, 4]):
         out.append({"ob": "done_run", "params": {"machine": "DM", "N": n}, "timeout": 280 if quick else 2400, "label": f"done_run[N={n}]"})
     out.append({"ob": "top_final", "params": {"machine": "TOP0"}, "timeout": 200, "label": "top_final"})
+    out.append({"ob": "double_final", "params": {"machine": "TOP0"}, "timeout": 200, "label": "double_final"})
     return out
